@@ -157,6 +157,10 @@ class Driver:
         try:
             w = Conn(self.daemon.path, abstract=self.daemon.abstract)
             w.hello()
+            # the bus's own id, read once here: GetId must keep answering exactly this
+            msgs, ok = w.recv_until_reply(w.bus_call('GetId'))
+            self.guid = msgs[-1].body[0] if ok and msgs[-1].type == 2 and msgs[-1].body else ''
+            self.lines[0]['cfg'] = self.cfg_record()
             # half-close and wait for the daemon's own close (end of file on our side): only then is its
             # descriptor for this connection gone, however slowly it is scheduled
             try:
@@ -213,6 +217,10 @@ class Driver:
         if self.cfg.get('act'):
             rec['act'] = [{'n': B(a['n']), 'kind': a['kind']} for a in self.cfg['act']]
             rec['maxPendingAct'] = self.cfg.get('maxPendingAct', 512)
+        if getattr(self, 'daemon', None) is not None:
+            rec['busPid'] = self.daemon.pid
+            rec['clientPid'] = os.getpid()
+            rec['guid'] = B(getattr(self, 'guid', '') or '')
         return rec
 
     def reload(self, c, op):
@@ -289,12 +297,14 @@ class Driver:
             return {'k': 'rel', 'ser': ser, 'fl': fl, 'n': B(_txt(op['n'])), '_': str(op['n'])}
         if k == 'query':
             q = op['q']
-            mem = {'owner': 'GetNameOwner', 'has': 'NameHasOwner', 'queued': 'ListQueuedOwners', 'list': 'ListNames'}[q]
-            if q == 'list':
+            mem = {'owner': 'GetNameOwner', 'has': 'NameHasOwner', 'queued': 'ListQueuedOwners', 'list': 'ListNames',
+                   'uid': 'GetConnectionUnixUser', 'pid': 'GetConnectionUnixProcessID', 'id': 'GetId', 'acts': 'ListActivatableNames'}[q]
+            if q in ('list', 'id', 'acts'):
                 ser = c.bus_call(mem, flags=fl)
                 return {'k': 'query', 'ser': ser, 'fl': fl, 'q': q, 'n': []}
-            ser = c.bus_call(mem, 's', (_txt(op['n']),), flags=fl)
-            return {'k': 'query', 'ser': ser, 'fl': fl, 'q': q, 'n': B(_txt(op['n'])), '_': str(op['n'])}
+            n = _txt(self.resolve(op['n']))
+            ser = c.bus_call(mem, 's', (n,), flags=fl)
+            return {'k': 'query', 'ser': ser, 'fl': fl, 'q': q, 'n': B(n), '_': str(op['n'])}
         if k == 'ping':
             ser = c.call(BUSNAME, BUSPATH, 'org.freedesktop.DBus.Peer', 'Ping')
             return {'k': 'ping', 'ser': ser}
